@@ -87,14 +87,20 @@ type ReplayFile struct {
 	Dec       map[string]Dec  `json:"decisions"`
 	Trace     []string        `json:"trace"`
 	Confirmed int             `json:"confirmed_of_3"`
+	Mode      string          `json:"mode,omitempty"` // "" explicit plan; "seed": regenerate from seed (hangs)
 }
 
 var stepCtr atomic.Int64
 var curRun atomic.Int64
+var runStartedNs atomic.Int64 // real time at which the current run started
+var abortRun atomic.Bool      // set by the watchdog: the current run exceeded its wall budget
+
+const runWallBudget = 25 * time.Second
 
 func setupProcess(t *testing.T) {
 	runtime.GOMAXPROCS(1)
 	debug.SetGCPercent(-1)
+	debug.SetMemoryLimit(3 << 30) // GC only as a last resort: it perturbs goroutine order
 	cryptotest.SetGlobalRandom(t, 0x5eed0fce27)
 	p, err := BuildCertPool()
 	if err != nil {
@@ -106,6 +112,9 @@ func setupProcess(t *testing.T) {
 // execute runs one plan in a fresh bubble.
 func execute(t *testing.T, sc *Scenario, tier string, params any, ch *Chooser, seed uint64, keepLog bool) *RunResult {
 	res := &RunResult{Seed: seed}
+	abortRun.Store(false)
+	runStartedNs.Store(time.Now().UnixNano())
+	defer runStartedNs.Store(0)
 	runtime.SetVerifSelectSeed(seed | 1)
 	cryptotest.SetGlobalRandom(t, seed)
 	var sim *Sim
@@ -123,9 +132,21 @@ func execute(t *testing.T, sc *Scenario, tier string, params any, ch *Chooser, s
 		}()
 		synctest.Test(t, func(t *testing.T) {
 			sim = NewSim(ch, &stepCtr)
+			sim.SetAbortFlag(&abortRun)
 			sim.KeepLog = keepLog
 			rc := &RunCtx{T: t, S: sim, Tier: tier, R: res}
-			sc.Run(rc, params)
+			func() {
+				// a panic on the controller goroutine: library code called
+				// synchronously by the scenario, or a harness bug (told apart
+				// by the first frame below the panic)
+				defer func() {
+					if v := recover(); v != nil {
+						res.Panic = fmt.Sprintf("panic: %v\n%s", v, debug.Stack())
+						sim.Net().CloseAll()
+					}
+				}()
+				sc.Run(rc, params)
+			}()
 			res.SimNs = int64(sim.Now())
 			sim.Detach()
 		})
@@ -143,6 +164,10 @@ func execute(t *testing.T, sc *Scenario, tier string, params any, ch *Chooser, s
 		if len(sim.Panics) > 0 && res.Violation == "" {
 			res.Panic = sim.Panics[0]
 		}
+		if sim.Overrun() && res.Violation == "" {
+			res.Signature = "step-budget"
+			res.Violation = sim.Failures()[0]
+		}
 		if keepLog {
 			for _, e := range sim.Log {
 				res.Trace = append(res.Trace, e.String())
@@ -150,9 +175,20 @@ func execute(t *testing.T, sc *Scenario, tier string, params any, ch *Chooser, s
 		}
 	}
 	if res.Panic != "" && res.Violation == "" {
+		if site := panicSite(res.Panic); strings.Contains(site, "verifsim") {
+			res.Signature = "harness-panic"
+			res.Violation = "HARNESS BUG (not a verdict): " + firstLine(res.Panic) + " at " + site
+			res.Trace = append(res.Trace, strings.Split(res.Panic, "\n")...)
+
+			return finish(res, ch)
+		}
 		res.Signature = "panic:" + panicSite(res.Panic)
 		res.Violation = "panic in library goroutine: " + firstLine(res.Panic)
 	}
+	return finish(res, ch)
+}
+
+func finish(res *RunResult, ch *Chooser) *RunResult {
 	res.Dec = ch.Dec
 
 	return res
@@ -194,7 +230,7 @@ func panicSite(stack string) string {
 		if strings.Contains(l, "panic(") {
 			for _, m := range lines[i+1:] {
 				m = strings.TrimSpace(m)
-				if strings.HasPrefix(m, "github.com/pion/dtls") {
+				if strings.HasPrefix(m, "github.com/pion/") {
 					if j := strings.LastIndex(m, "("); j > 0 {
 						m = m[:j]
 					}
@@ -368,6 +404,11 @@ func startWatchdog(out *WorkerOut, job *Job) {
 		stall := 0
 		for {
 			time.Sleep(time.Second)
+			now := time.Now()
+			_ = os.Chtimes(job.Out+".hb", now, now)
+			if st := runStartedNs.Load(); st != 0 && now.UnixNano()-st > int64(runWallBudget) {
+				abortRun.Store(true)
+			}
 			cur := stepCtr.Load()
 			if cur == last && curRun.Load() >= 0 {
 				stall++
@@ -395,6 +436,7 @@ func runWorker(t *testing.T, job *Job) {
 	}
 	out := &WorkerOut{Property: job.Property, Worker: job.Worker, Faults: map[string]int{}, Probes: map[string]int{}, Classes: map[string]int{}, Notes: map[string]int{}}
 	curRun.Store(-1)
+	_ = os.WriteFile(job.Out+".hb", []byte("-1"), 0o644)
 	startWatchdog(out, job)
 	start := time.Now()
 	enum, sample := sc.Counts(job.Tier)
@@ -436,6 +478,7 @@ func runWorker(t *testing.T, job *Job) {
 			t.Fatalf("params round trip: %v", err)
 		}
 		curRun.Store(int64(idx))
+		_ = os.WriteFile(job.Out+".cur", []byte(fmt.Sprint(idx)), 0o644)
 		keep := len(out.Samples) < 2 || job.LogDir != ""
 		res := execute(t, sc, job.Tier, params, NewGenChooser(seed), seed, keep)
 		curRun.Store(-1)
@@ -571,11 +614,25 @@ func runReplay(t *testing.T, job *Job) {
 	if sc == nil {
 		t.Fatalf("unknown property %q", rf.Property)
 	}
-	params := sc.NewParams()
-	if err := json.Unmarshal(rf.Params, params); err != nil {
-		t.Fatal(err)
+	var res *RunResult
+	if rf.Mode == "seed" {
+		// regenerate the plan from the seed (used for runs that never finished,
+		// where no explicit decision list could be recorded)
+		gen := rand.New(rand.NewPCG(rf.Seed, 0x1234567))
+		params, _, err := roundTrip(sc, sc.Gen(gen, rf.Tier, rf.Index))
+		if err != nil {
+			t.Fatal(err)
+		}
+		startWatchdog(&WorkerOut{}, job)
+		curRun.Store(int64(rf.Index))
+		res = execute(t, sc, rf.Tier, params, NewGenChooser(rf.Seed), rf.Seed, true)
+	} else {
+		params := sc.NewParams()
+		if err := json.Unmarshal(rf.Params, params); err != nil {
+			t.Fatal(err)
+		}
+		res = execute(t, sc, rf.Tier, params, NewReplayChooser(cloneDec(rf.Dec)), rf.Seed, true)
 	}
-	res := execute(t, sc, rf.Tier, params, NewReplayChooser(cloneDec(rf.Dec)), rf.Seed, true)
 	out := map[string]any{"property": rf.Property, "violation": res.Violation, "signature": res.Signature, "expected_signature": rf.Signature,
 		"reproduced": res.Violation != "" && res.Signature == rf.Signature, "trace": res.Trace}
 	b, _ := json.MarshalIndent(out, "", " ")
